@@ -281,9 +281,9 @@ func init() {
 							}
 							return true
 						})
-						if uses || true {
-							sorted = true
-						}
+						_ = uses
+						sorted = true
+						r.checkLevelSortCoverage(f, c, levelsF)
 					}
 				}
 				return true
@@ -515,4 +515,186 @@ func init() {
 				r.Fail("dkv/sst.TableDocument:EndSeqNum", doc.Decl.Pos(), nil, "the table document does not carry EndSeqNum in both directions (out=%v in=%v)", okOut, okIn)
 			}
 		}})
+}
+
+// checkLevelSortCoverage: the sort call `call` inside LoadCheckpointList is applied to every
+// level index 1..len-1 of the composite document and to no other (level 0 keeps its recency
+// order), and orders tables ascending by start key.
+func (r *Run) checkLevelSortCoverage(f *prog.FuncInfo, call *ast.CallExpr, levelsF *types.Var) {
+	info := f.Pkg.TypesInfo
+	r.Site(call.Pos(), "sort of the merged levels: coverage of levels 1..n-1")
+	isLevels := func(e ast.Expr) bool { return prog.SelField(info, e) == levelsF }
+	path := r.P.PathTo(r.P.FileAt(call.Pos()), call.Pos(), call.End())
+	var loop ast.Stmt
+	for k := len(path) - 1; k >= 0 && loop == nil; k-- {
+		switch x := path[k].(type) {
+		case *ast.ForStmt:
+			loop = x
+		case *ast.RangeStmt:
+			loop = x
+		case *ast.FuncLit:
+			k = -1
+		}
+	}
+	fail := func(tag, format string, a ...any) {
+		r.Fail(f.Name()+":sort-coverage:"+tag, call.Pos(), nil, format, a...)
+	}
+	// what is sorted: X[idx] or the range value
+	arg := ast.Unparen(call.Args[0])
+	constInt := func(e ast.Expr) (int, bool) {
+		tv, ok := info.Types[e]
+		if !ok || tv.Value == nil {
+			return 0, false
+		}
+		v := 0
+		if _, err := sscanInt(tv.Value.String(), &v); err != nil {
+			return 0, false
+		}
+		return v, true
+	}
+	switch lp := loop.(type) {
+	case nil:
+		fail("no-loop", "the sort of the merged levels is not inside a loop over the levels: only one level would be sorted")
+	case *ast.ForStmt:
+		// for i := c0; i < len(X); i++ { sort(X[i]) }
+		var iv types.Object
+		c0 := -1
+		if as, ok := lp.Init.(*ast.AssignStmt); ok && len(as.Lhs) == 1 && len(as.Rhs) == 1 {
+			iv = prog.IdentObj(info, as.Lhs[0])
+			if v, ok := constInt(as.Rhs[0]); ok {
+				c0 = v
+			}
+		}
+		okCond := false
+		if b, ok := ast.Unparen(lp.Cond).(*ast.BinaryExpr); ok && iv != nil && prog.IdentObj(info, b.X) == iv {
+			if l, ok := linearOf(info, nil, b.Y); ok {
+				var lenKey string
+				for k := range l {
+					if k != "" {
+						lenKey = k
+					}
+				}
+				isLen := false
+				ast.Inspect(b.Y, func(m ast.Node) bool {
+					if c, ok := m.(*ast.CallExpr); ok {
+						if id, ok := c.Fun.(*ast.Ident); ok && id.Name == "len" && len(c.Args) == 1 && isLevels(c.Args[0]) {
+							isLen = true
+						}
+					}
+					return true
+				})
+				if isLen && lenKey != "" && l[lenKey] == 1 && ((b.Op == token.LSS && l[""] == 0) || (b.Op == token.LEQ && l[""] == -1)) {
+					okCond = true
+				}
+			}
+		}
+		okPost := false
+		if inc, ok := lp.Post.(*ast.IncDecStmt); ok && inc.Tok == token.INC && prog.IdentObj(info, inc.X) == iv {
+			okPost = true
+		}
+		okArg := false
+		if ix, ok := arg.(*ast.IndexExpr); ok && isLevels(ix.X) && iv != nil && prog.IdentObj(info, ix.Index) == iv {
+			okArg = true
+		}
+		switch {
+		case iv == nil || !okCond || !okPost:
+			r.Error("undecided: %s: the loop around the level sort is not `for i := c; i < len(levels); i++`", f.Name())
+		case c0 == 0:
+			fail("level0", "the sort also reorders level 0 by start key: level 0 tables overlap and are searched newest first, so their order must stay the flush order")
+		case c0 != 1:
+			fail("start", "the sort starts at level %d: levels 1..%d stay in handle order although they are binary-searched", c0, c0-1)
+		case !okArg:
+			fail("index", "the slice that is sorted is not levels[i] for the loop index i")
+		}
+	case *ast.RangeStmt:
+		src := ast.Unparen(lp.X)
+		offset := 0 // index of the first ranged element within Levels
+		full := isLevels(src)
+		if sl, ok := src.(*ast.SliceExpr); ok && isLevels(sl.X) && sl.High == nil && sl.Low != nil {
+			if v, ok := constInt(sl.Low); ok {
+				offset, full = v, true
+			}
+		}
+		if !full {
+			r.Error("undecided: %s: the level sort ranges over something other than the composite document's levels", f.Name())
+			return
+		}
+		iv, vv := prog.IdentObj(info, lp.Key), types.Object(nil)
+		if lp.Value != nil {
+			vv = prog.IdentObj(info, lp.Value)
+		}
+		argOff := -1 << 30
+		if vv != nil && prog.IdentObj(info, arg) == vv {
+			argOff = offset
+		} else if ix, ok := arg.(*ast.IndexExpr); ok && isLevels(ix.X) && iv != nil {
+			if l, ok := linearOf(info, nil, ix.Index); ok && l[iv.Name()] == 1 && len(l) <= 2 {
+				argOff = l[""]
+			}
+		}
+		if argOff == -1<<30 {
+			fail("index", "the slice that is sorted is neither the ranged level nor levels[i+k]")
+			return
+		}
+		// first level actually sorted = argOff (when ranging from `offset`, element j is Levels[offset+j]; sorted is Levels[j+argOff])
+		skipsZero := false
+		if offset == 0 && argOff == 0 {
+			// needs a guard that skips index 0
+			ast.Inspect(lp.Body, func(m ast.Node) bool {
+				if is, ok := m.(*ast.IfStmt); ok {
+					if b, ok := ast.Unparen(is.Cond).(*ast.BinaryExpr); ok && iv != nil && prog.IdentObj(info, b.X) == iv {
+						if v, ok := constInt(b.Y); ok {
+							if (b.Op == token.EQL && v == 0) || (b.Op == token.LSS && v == 1) {
+								for _, st := range is.Body.List {
+									if br, ok := st.(*ast.BranchStmt); ok && br.Tok == token.CONTINUE && is.End() < call.Pos() {
+										skipsZero = true
+									}
+								}
+							}
+							if ((b.Op == token.GTR && v == 0) || (b.Op == token.GEQ && v == 1) || (b.Op == token.NEQ && v == 0)) && is.Body.Pos() < call.Pos() && call.End() < is.Body.End() {
+								skipsZero = true
+							}
+						}
+					}
+				}
+				return true
+			})
+		}
+		switch {
+		case argOff != offset:
+			fail("index", "the loop visits levels %d.. but sorts levels[i%+d]: the last level(s) merged from several checkpoints stay in handle order although they are binary-searched (and level %d is reordered)", offset, argOff, argOff)
+		case offset == 0 && !skipsZero:
+			fail("level0", "the sort also reorders level 0 by start key: level 0 tables overlap and are searched newest first, so their order must stay the flush order")
+		case offset > 1:
+			fail("start", "the sort starts at level %d: levels 1..%d stay in handle order although they are binary-searched", offset, offset-1)
+		}
+	}
+	// comparator: ascending by StartKey
+	if len(call.Args) >= 2 {
+		if lit, ok := ast.Unparen(call.Args[1]).(*ast.FuncLit); ok && len(lit.Type.Params.List) >= 1 {
+			var ps []types.Object
+			for _, fl := range lit.Type.Params.List {
+				for _, n := range fl.Names {
+					ps = append(ps, info.Defs[n])
+				}
+			}
+			okCmp := false
+			ast.Inspect(lit.Body, func(m ast.Node) bool {
+				c, ok := m.(*ast.CallExpr)
+				if !ok || len(c.Args) != 2 || len(ps) != 2 {
+					return true
+				}
+				if sel, ok := ast.Unparen(c.Fun).(*ast.SelectorExpr); ok && sel.Sel.Name == "Compare" {
+					a, aok := ast.Unparen(c.Args[0]).(*ast.SelectorExpr)
+					b, bok := ast.Unparen(c.Args[1]).(*ast.SelectorExpr)
+					if aok && bok && a.Sel.Name == "StartKey" && b.Sel.Name == "StartKey" && prog.IdentObj(info, a.X) == ps[0] && prog.IdentObj(info, b.X) == ps[1] {
+						okCmp = true
+					}
+				}
+				return true
+			})
+			if !okCmp {
+				fail("order", "the merged levels are not sorted ascending by StartKey (Compare(a.StartKey, b.StartKey))")
+			}
+		}
+	}
 }
